@@ -7,6 +7,94 @@ HAL_RULE = ("cases = (HAL operation out of the 83-entry catalogue in harness/src
             "masks and operand values (extreme, alternating, sparse, uniform classes). Non-trivial = N >= 2 and a non-zero result; distinct = hash of the tuple")
 
 PROPS = {
+    "C01": dict(
+        level="exploration",
+        runs=[dict(name="rel", flavour="rel", shards=16, timeout=1500, timeout_thorough=7200, skip_class="scratch_query_too_small")],
+        rule=("a case is one fresh encryption (sk / zero_sk / pk / zero_pk / compressed->decompress / LWE) on one backend followed by two decryptions; all parameters (N, rank, base2k, k, limbs, "
+              "secret distribution and its parameter, message class, plaintext size, noise (k, sigma, bound), decryption radix/size, seeds) are derived from the 64-bit case value; the grid part "
+              "enumerates N x rank x distribution x message class. The error centre(phase(ct, s) - value(pt)) is extracted exactly (big integers, clear secret through the hook) and compared with "
+              "the hard bound; the library decryption is compared with the exact phase (<= one unit of the plaintext's last limb, also across radices). Distinct = distinct (backend, mode, N, rank, "
+              "base2k, k, distribution kind, message, pt size, noise, decryption layout) tuples; non-trivial = not (zero message under the zero secret)"),
+        min_evaluations=dict(quick=1500000, thorough=30000000),
+        min_counters=dict(quick={"grid_done": 64, "mode:sk": 1, "mode:pk": 1, "mode:zero_sk": 1, "mode:zero_pk": 1, "mode:compressed": 1, "mode:lwe": 1, "k_not_multiple_of_base2k": 1,
+                                 "decrypt_cross_radix": 1, "round_trips": 1},
+                          thorough={"grid_done": 64, "mode:sk": 1, "mode:pk": 1, "mode:compressed": 1, "mode:lwe": 1}),
+        assumptions=["pk bound uses the maximum 1-norm of the ephemeral secret for the key's distribution (u is not observable)",
+                     "worst observed on the pinned tree: fresh error 0.962 x bound, decrypt deviation exactly 1.000 unit (comparison is <=)"],
+    ),
+    "C02": dict(
+        level="exploration",
+        runs=[dict(name="rel", flavour="rel", shards=16, timeout=1500, timeout_thorough=7200, skip_class="scratch_query_too_small")],
+        rule=("cases are drawn per shard from cfg.rng('c02-<backend>'): op round-robin over the 21 public GLWE ops + ggsw_rotate(+assign), sizes 1..5 shorter/equal/longer, ranks 0..3 as the API's "
+              "assertions admit, base2k 1..62, rotations in +-4N and +-2^40, shifts 0..(size+2)*b, cross-radix normalisation; every op is modelled column-wise on exact big-integer torus polynomials "
+              "(tolerance: one unit of the result's last limb per truncated operand, exact otherwise), the phase statement is checked exactly under a random secret when nothing is truncated, assign and "
+              "out-of-place forms are compared; plus random straight-line programs of 2-12 ops over 4 registers checked after every step. Non-trivial unless operand a is all-zero; distinct = distinct "
+              "(backend, op, n, radices, three sizes, three ranks, rot mod 2N, shift)"),
+        min_evaluations=dict(quick=1500000, thorough=40000000),
+        min_counters=dict(quick={"phase_checks": 1, "assign_vs_out_of_place": 1, "programs": 1, "program_steps": 1, "class:truncating": 1, "class:cross_radix": 1, "class:res_rank_gt_a_rank": 1},
+                          thorough={"phase_checks": 1, "programs": 1, "program_steps": 1}),
+        assumptions=["operand radices of rotate / negate / copy / mul_xp_minus_one equal the result radix", "mul_xp_minus_one is allowed 2 units (the truncated operand enters twice; worst measured 1.75)"],
+    ),
+    "C03": dict(
+        level="exploration",
+        runs=[dict(name="rel", flavour="rel", shards=16, timeout=1500, timeout_thorough=7200, skip_class="scratch_query_too_small")],
+        rule=("contexts are drawn per shard from cfg.rng('c03-<backend>') (the Galois grid - every unit of (Z/2NZ)* for N in {8,16,32,64} - is seed-independent and sharded by index); a case is one "
+              "(operation, key shape, input/output layout, input class) oracle evaluation: err = exact phase of the result under the target key minus the exact image (identity, X->X^g, partial trace, "
+              "packed slots, extracted coefficient) of the exact input phase, compared with a hard gadget bound derived from gglwe_product_dft; plus the bound-free check that keys of different "
+              "(dsize, dnum, radix) give the same plaintext. Ops: glwe/gglwe/ggsw/lwe key-switch, 8 automorphism forms, trace, pack, GLWEPacker, lwe<->glwe, sample extraction, key rows. "
+              "Distinct = distinct (backend, n, key shape, radices, sizes, class, Galois element / skip / slots / index)"),
+        min_evaluations=dict(quick=300000, thorough=10000000),
+        min_counters=dict(quick={"keys": 1, "exact_scratch_calls": 1, "inputs_encrypted": 1, "galois_elements": 400, "noise_dominated_cases": 1},
+                          thorough={"keys": 1, "galois_elements": 400, "noise_dominated_cases": 1}),
+        assumptions=["hard bound only: noise regressions below it (factor <~ 2) are invisible by construction (no statistical tier for the key-switching family)",
+                     "ring degrees 8..64; inputs normalised; worst ratio 0.44 of the bound where key noise dominates"],
+    ),
+    "C04": dict(
+        level="exploration",
+        runs=[dict(name="rel", flavour="rel", shards=16, timeout=1500, timeout_thorough=7200, skip_class="scratch_query_too_small")],
+        rule=("contexts are drawn from xoshiro streams c04-<backend> keyed by (seed, shard): N in {8,16,32,64}, rank 1..3, GGSW radix inside the backend's exactness domain, dsize 1..4, dnum 1..size/dsize, "
+              "k not limb-aligned, secret from 4 distributions, m2 from 8 classes; plus the seed-independent grid of all +-X^k for N=8,16. A case = one library operation (glwe/gglwe/ggsw external product "
+              "x2, cmux x3, ggsw_from_gglwe, ggsw_keyswitch x2, ggsw_automorphism x2) on one operand set, judged by exact phase vs m2 * exact_phase(input) within a hard gadget bound; every produced / "
+              "used gadget ciphertext is decrypted cell by cell. Non-trivial = the hard bound is below 1/16 of the torus; distinct = the full parameter tuple"),
+        min_evaluations=dict(quick=300000, thorough=6000000),
+        min_counters=dict(quick={"ggsw_cells_decrypted": 1, "gglwe_cells_decrypted": 1, "tsk_cells_decrypted": 1, "grid_all_monomials_n8_n16": 1, "calls_with_exact_scratch": 1},
+                          thorough={"ggsw_cells_decrypted": 1, "grid_all_monomials_n8_n16": 1}),
+        assumptions=["worst passing ratio <= 0.80 of the bound on the pinned tree", "ggsw_automorphism yields sigma_p(m2) under the same secret s (measured convention)"],
+    ),
+    "C05": dict(
+        level="exploration",
+        runs=[dict(name="rel", flavour="rel", shards=16, timeout=1500, timeout_thorough=7200, skip_class="scratch_query_too_small")],
+        rule=("contexts from streams c05-<backend>: N in {8,16,32}, rank 1..2(3), operand radix inside the exactness domain, operand sizes 1..4 limbs with k not limb-aligned; every context is run at "
+              "every cnv_offset of the grid {q*b + r} (q over every limb multiple up to (a_size+b_size)*b, r in {0,1,b/2,b-1}), into and assign forms; the oracle is the exact identity phase(res) == "
+              "P_a*P_b*2^(cnv-Wa-Wb) on un-reduced integer phases (tolerance 2 units per column + the exactly computable tail of uncomputed product limbs); square vs self-multiply and accumulate forms "
+              "are compared bitwise; relinearisation against the exact tensor phase with the hard gadget bound. Non-trivial = product non-zero and tolerance < 1/16 of the torus; distinct = (context, op, offset)"),
+        min_evaluations=dict(quick=1000000, thorough=20000000),
+        min_counters=dict(quick={"calls_with_exact_scratch": 1}, thorough={"calls_with_exact_scratch": 1}),
+        assumptions=["results in the region res.base2k != operand base2k and cnv_offset < base2k go through the cross-radix normaliser with a negative offset: known finding F13"],
+    ),
+    "C06": dict(
+        level="exploration",
+        runs=[dict(name="rel", flavour="rel", shards=16, timeout=1800, timeout_thorough=7200, skip_class="scratch_query_too_small")],
+        rule=("a case is one freshly encrypted object (one of 24 kinds: GLWE, LWE, GGLWE, GGSW, switching / automorphism / tensor / GGLWE-to-GGSW / LWE-related keys, public keys, blind-rotation and "
+              "circuit-bootstrapping keys, compressed forms) whose every cell is decrypted exactly; statistical verdicts (two-sided variance band, mean, max <= bound, zero fraction; mask range, chi-square "
+              "over 64 buckets, bit balance, lag-1 correlation) are taken per (backend, kind, shard) pool of >= 2^16 (quick) / 2^22 (thorough) error coefficients with a total false-alarm budget < 2^-40 "
+              "per run; metamorphic cases rebuild the same object under single-input changes (plaintext, secret, error seed, mask seed) and compare bytes. Distinct = distinct (backend, kind, layout, sigma)"),
+        min_evaluations=dict(quick=300000, thorough=5000000),
+        min_counters=dict(quick={"stat_err_pools": 1000, "stat_err_samples": 1, "stat_mask_pools": 1, "stat_mask_digits": 1, "meta_objects": 1},
+                          thorough={"stat_err_pools": 1000, "meta_objects": 1}),
+        assumptions=["errors are pooled only where the model applies (k >= 10, so that the centred error does not wrap)", "empirical sigma / expected stayed within 0.990..1.0115 on the pinned tree"],
+    ),
+    "C19": dict(
+        level="exploration",
+        runs=[dict(name="rel", flavour="rel", shards=16, timeout=1800, timeout_thorough=7200, skip_class="scratch_query_too_small")],
+        rule=("a case is one compressed object (12 kinds), decompressed and compared cell by cell with the mask regenerated from the stored seed, the regenerated error stream and - where the public API "
+              "allows - the public standard encryption replayed with Source::new(stored seed) and the cloned error source; cross_backend cases are the same (kind, layout, inputs) on a second backend "
+              "compared byte for byte; compress -> write_to -> read_from -> decompress must reproduce the object. Distinct = distinct (backend, kind, layout) tuples"),
+        min_evaluations=dict(quick=200000, thorough=5000000),
+        min_counters=dict(quick={"cells_checked": 1, "mask_columns_checked": 1, "cells_replayed_publicly": 1, "round_trips": 1, "cross_backend_compared": 1},
+                          thorough={"cells_checked": 1, "cross_backend_compared": 1}),
+        assumptions=["GGLWEToGGSWKeyDecompress has no Module implementation and the LWE-related compressed keys cannot call their own decompress methods (missing trait impls): these are expanded GGLWE by GGLWE"],
+    ),
     "C16": dict(
         level="exploration",
         runs=[dict(name="rel", flavour="rel", shards=16, timeout=1500, timeout_thorough=7200)],
@@ -128,8 +216,12 @@ PROPS = {
         runs=[dict(name="rel", flavour="rel", shards=16, timeout=1200, timeout_thorough=7200),
               dict(name="asan", flavour="asan", shards=16, timeout=1200, timeout_thorough=7200, args=["--scale", "0.5"]),
               dict(name="valgrind-uninit", flavour="valgrind", shards=16, timeout=1500, timeout_thorough=7200, args=["--mode", "uninit", "--scale", "0.5"]),
-              dict(name="miri-uninit", flavour="miri", shards=16, timeout=1500, timeout_thorough=7200, args=["--mode", "uninit", "--scale", "0.002", "--backend", "fft64ref,ntt120ref"])],
-        rule=HAL_RULE + "; restricted to the 30 operations that take scratch; the scratch is a window of exactly the bytes returned by the companion *_tmp_bytes query, 64-byte aligned and flush "
+              dict(name="miri-uninit", flavour="miri", shards=16, timeout=1500, timeout_thorough=7200, args=["--mode", "uninit", "--scale", "0.002", "--backend", "fft64ref,ntt120ref"]),
+              dict(name="core-c01", flavour="rel", cmd="c01", shards=16, timeout=1500, timeout_thorough=7200, args=["--scale", "0.3"], only_class="scratch_query_too_small"),
+              dict(name="core-c03", flavour="rel", cmd="c03", shards=16, timeout=1500, timeout_thorough=7200, args=["--scale", "0.5"], only_class="scratch_query_too_small"),
+              dict(name="core-c04", flavour="rel", cmd="c04", shards=16, timeout=1500, timeout_thorough=7200, args=["--scale", "0.3"], only_class="scratch_query_too_small"),
+              dict(name="core-c05", flavour="rel", cmd="c05", shards=16, timeout=1500, timeout_thorough=7200, args=["--scale", "0.3"], only_class="scratch_query_too_small")],
+        rule=HAL_RULE + "; [scheme layers] the functional monitors of C01-C05 give every poulpy-core call an exact-size scratch window as well: their scratch-class observations are collected by the 'core-*' runs; [HAL] restricted to the 30 operations that take scratch; the scratch is a window of exactly the bytes returned by the companion *_tmp_bytes query, 64-byte aligned and flush "
              "against the end of its allocation (first byte past it is a red zone / guard); two fills must give equal selected bytes; in the uninit runs the window is handed over uninitialised and every "
              "selected output byte is folded through a branch so that memcheck / Miri report any dependence on it",
         min_evaluations=dict(quick=60000, thorough=2000000),
